@@ -149,8 +149,8 @@ pub fn run(tier: Tier, seed: u64, known: &Known) -> PropRun {
         "ep convention: the engine may name the ep square after every double push or only when a capture is pseudo-possible".into(),
     ];
     let parts: [(&str, u64, usize, fn(&[u8], &mut Stats) -> Verdict); 2] = [
-        ("allmoves", tier.pick(40_000, 1_000_000), 160, part_allmoves),
-        ("playouts", tier.pick(3_000, 60_000), 700, part_playouts),
+        ("allmoves", tier.pick(200_000, 1_000_000), 160, part_allmoves),
+        ("playouts", tier.pick(12_000, 60_000), 700, part_playouts),
     ];
     for (name, cases, max_len, f) in parts {
         let part = Part { name, cases, min_len: 8, max_len, max_shrink: 4000, threads: threads() };
